@@ -32,7 +32,7 @@ class MDCPDPGenerator(Generator):
         A TensorDict with the following keys:
             locs [batch_size, num_loc, 2]: locations of each customer
             depot [batch_size, num_depot, 2]: locations of each depot
-            capacity [batch_size, 1]: capacity of the vehicle
+            capacity [batch_size, num_depot]: capacity of the vehicle of each depot
             lateness_weight [batch_size, 1]: weight of the lateness cost
     """
     def __init__(
@@ -109,7 +109,7 @@ class MDCPDPGenerator(Generator):
         capacity = torch.randint(
             self.min_capacity,
             self.max_capacity + 1,
-            size=(*batch_size, 1),
+            size=(*batch_size, self.num_depot),
         )
 
         # Sample lateness weight
